@@ -104,6 +104,8 @@ Alphabet ==
          \cup {Upd(T, <<<<K, IntV(2)>>>>, True), Upd(T, <<<<K, IntV(3)>>>>, Eq(K, IntV(1))),
                Upd(T, <<<<V, sb>>, <<K, IntV(2)>>>>, True)}
          \cup {Del(T, Eq(K, IntV(1))), Del(T, True)}
+         \* a string column assigned twice in one statement: the first value leaves no trace (rows, pool, counts)
+         \cup {Upd(T, <<<<V, sT>>, <<V, sb>>>>, Eq(K, IntV(1)))}
          \* a logical operator INSIDE a comparison: (K OR K) is 1 for K = 2, so the row with key 2 goes
          \cup {Del(T, Bin("eq", Bin("or", Col(K), Col(K)), Lit(IntV(1)))), Upd(T, <<<<V, sb>>>>, Bin("eq", Bin("and", Col(K), Col(K)), Lit(IntV(1))))}
     [] Cfg = "persist" ->       \* what the finisher saves of tables and pool; all three closes, reopen, crash point
